@@ -51,7 +51,8 @@ def gen_case(streams, tier):
     if holes:
         with_compiled = False      # CompiledSimulation is not built for ROMs without data
     has_mem = any(not m.get('rom') for m in script['mems'])
-    init = gen.gen_init(g, script, allow_default=not (with_compiled and has_mem))
+    init = gen.gen_init(g, script, allow_default=not (with_compiled and has_mem),
+                        mem_misfit=not with_compiled)
     labels = ['sim', 'fast'] + (['compiled'] if with_compiled else [])
     if g.random() < 0.3:
         # a second instance of one simulator class on the same block, stepped in between the
